@@ -20,13 +20,28 @@ Theorem C10_on_exit_failed_true : forall f a, a_alive a = true -> (expected f a 
 Proof. exact killed_iff_on_failed_host. Qed.
 Print Assumptions C10_on_exit_failed_true.
 
+(* nobody goes on normally through an off resource: in the model a live actor blocked on an activity that uses the
+   resource that goes off is killed or served an exception *)
+Theorem C10_no_success_through_off_resource : forall f a, a_alive a = true -> uses f (a_wait a) = true ->
+  expected f a = 1 \/ expected f a = 2 \/ expected f a = 3.
+Proof. exact no_success_through_off. Qed.
+Print Assumptions C10_no_success_through_off_resource.
+
 (* the oracle accepts an observed run only if: every live actor of the failed host was killed and its on_exit saw
    failed = true; every surviving actor blocked on an activity using the off resource caught NetworkFailureException
-   (communication) resp. HostFailureException (execution) at the failure date; and no actor is reported blocked for ever
-   (deadlock) on an activity that uses the off resource *)
+   (communication) resp. HostFailureException (execution) at the failure date; no actor is reported blocked for ever
+   (deadlock) on an activity that uses the off resource; and no operation blocked on an activity using the off resource
+   returned successfully afterwards (clause_ok is defined in Kernel/FailProofs.v) *)
 Theorem C10_oracle_sound : forall f l, failure_log_ok f l = true -> Forall (clause_ok f) l.
 Proof. exact oracle_sound. Qed.
 Print Assumptions C10_oracle_sound.
+
+(* an activity that uses a resource that is off from the failure date to its completion must not complete successfully:
+   the oracle rejects every such observation *)
+Theorem C10_oracle_rejects_success_through_off : forall f o, a_alive (o_actor o) = true ->
+  uses f (a_wait (o_actor o)) = true -> o_done o = true -> verdict f o <> 0.
+Proof. exact oracle_rejects_success_through_off. Qed.
+Print Assumptions C10_oracle_rejects_success_through_off.
 
 Theorem C10_model_passes_oracle : forall f l, failure_log_ok f (map (obs_of_model f) l) = true.
 Proof. exact model_passes_oracle. Qed.
@@ -38,6 +53,8 @@ Example C10_nonvacuous :
   let c := mkWait 4 0 1 [0] in
   map (expected (FHost 1)) [mkActor 0 true c; mkActor 1 true c; mkActor 2 true (mkWait 2 1 (-1) [])] = [2; 1; 3] /\
   map (expected (FLink 0)) [mkActor 0 true c; mkActor 1 true c; mkActor 2 true (mkWait 2 1 (-1) [])] = [2; 2; 0] /\
-  verdict (FHost 1) (mkObs (mkActor 0 true c) false false 0 no_wait) = 3 /\
-  verdict (FHost 1) (mkObs (mkActor 0 true c) false false 0 c) = 5.
+  verdict (FHost 1) (mkObs (mkActor 0 true c) false false 0 false no_wait) = 3 /\
+  verdict (FHost 1) (mkObs (mkActor 0 true c) false false 0 false c) = 5 /\
+  verdict (FLink 0) (mkObs (mkActor 0 true c) false false 0 true no_wait) = 6 /\
+  verdict (FLink 0) (mkObs (mkActor 0 true c) false false 1 false no_wait) = 0.
 Proof. vm_compute. repeat split; reflexivity. Qed.
